@@ -272,12 +272,38 @@ def spec_check(case, out):
     return None
 
 
+def spec_served(case, out):
+    """the same response returned by a handler and sent by the real Router::handle: GET is judged like the direct path; HEAD carries no body, the header
+    fields of GET (Content-Length / Transfer-Encoding may be left out; a Content-Length that is sent is the one of GET), and no Content-Length under 204"""
+    if not out.get('get') or not out.get('head'): return 'the router path wrote no response'
+    stream = bool(case['ops']) and case['ops'][0][0] == 'stream'
+    bad = spec_stream(case, {'wire': out['get']}) if stream else spec_check(case, {'wire': out['get'], 'declared': 1 << 62})
+    if bad: return 'GET through Router::handle: ' + bad
+    g, h = parse_response(unhx(out['get'])), parse_response(unhx(out['head']))
+    if h is None: return 'HEAD: wire does not parse as an HTTP/1.1 response'
+    (gl, ghs, _), (hl, hhs, hbody) = g, h
+    if hbody: return f'HEAD answered with {len(hbody)} body bytes'
+    if hl != gl: return f'HEAD status line {hl!r}, GET {gl!r}'
+    framing = (b'content-length', b'transfer-encoding')
+    hn = [n.lower() for n, _ in hhs if n != b'Set-Cookie']
+    if len(hn) != len(set(hn)): return 'HEAD: a header appears twice'
+    if [x for x in hhs if x[0].lower() not in framing] != [x for x in ghs if x[0].lower() not in framing]: return f'HEAD header fields {hhs[:6]} differ from those of GET {ghs[:6]}'
+    hd, gd = {n.lower(): v for n, v in hhs}, {n.lower(): v for n, v in ghs}
+    for f in framing:
+        if f in hd and hd[f] != gd.get(f): return f'HEAD sends {f.decode()}: {hd[f]!r}, GET {gd.get(f)!r}'
+    if case['status'] == 204 and b'content-length' in hd: return 'HEAD: 204 with Content-Length'
+    return None
+
+
 def judge(case, out, m):
     v = []
+    if 'wire' in out and 'panic' not in out:
+        bad = spec_served(case, out)
+        if bad: v.append(('violation', bad))
     if case['ops'] and case['ops'][0][0] == 'stream':
         if 'panic' in out or 'wire' not in out: return [('violation', 'sending a stream response died: ' + str(out)[:160])]
         bad = spec_stream(case, out)
-        return [('violation', bad)] if bad else []
+        return v + ([('violation', bad)] if bad else [])
     bad = spec_check(case, out)
     if bad: v.append(('violation', bad))
     if m is not None:
